@@ -11,6 +11,7 @@ import (
 	"go.nanomsg.org/mangos/v3"
 	"go.nanomsg.org/mangos/v3/internal/core"
 	"go.nanomsg.org/mangos/v3/transport/inproc"
+	"go.nanomsg.org/mangos/v3/vh/vnet"
 	"go.nanomsg.org/mangos/v3/vh/vt"
 	"go.nanomsg.org/mangos/v3/vz/vsched"
 )
@@ -91,6 +92,7 @@ func ResetGlobals() {
 	core.VerifResetPipeIDs()
 	inproc.VerifReset()
 	vt.Reset()
+	net.VReset()
 	for _, f := range resetters {
 		f()
 	}
